@@ -55,7 +55,7 @@ def main():
     rnd = os.environ.get("VET_ROUND", "1")
     wt = f"/tmp/wt/{prop}" if rnd == "1" else f"/tmp/wt{rnd}/{prop}"
     src = f"/tmp/wt_out/{prop}/{x}" if rnd == "1" else f"/tmp/wt_out{rnd}/{prop}/{x}"
-    keep_as = x if rnd == "1" else {"a": "c", "b": "d"}.get(x, x) if rnd == "2" else {"a": "e", "b": "f"}.get(x, x) if rnd == "3" else x + rnd
+    keep_as = x if rnd == "1" else {"a": "c", "b": "d"}.get(x, x) if rnd == "2" else {"a": "e", "b": "f"}.get(x, x) if rnd == "3" else {"a": "g", "b": "h"}.get(x, x) if rnd == "4" else x + rnd
     patch, demo = os.path.join(src, "patch.diff"), os.path.join(src, "demo.py")
     env = dict(os.environ, PYTHONPATH=wt)
     rep = {"property": prop, "variant": x}
@@ -83,8 +83,11 @@ def main():
     rep["demo_reverted"] = {"exit": rc}
     confirmed = rep["demo_clean"]["exit"] == 0 and rep["demo_patched"]["exit"] != 0 and not rep["suite_with_patch"]["stable_missing"] and rep["demo_reverted"]["exit"] == 0
     rep["confirmed"] = confirmed
-    rc, out = sh([PY, os.path.join(V, "tools", "try_mutant.py"), patch] + props, cwd=V, timeout=3600)
-    rep["checks"] = out.strip().splitlines()
+    if os.environ.get("VET_NO_CHECKS"):
+        rep["checks"] = ["(checks run later by tools/rerun_seeded.py)"]       # the worktree part can run while /repo is in use
+    else:
+        rc, out = sh([PY, os.path.join(V, "tools", "try_mutant.py"), patch] + props, cwd=V, timeout=3600)
+        rep["checks"] = out.strip().splitlines()
     print(json.dumps(rep, indent=1))
     if confirmed or "--keep-anyway" in a:
         dst = os.path.join(V, "seeded", f"{prop}-{keep_as}")
